@@ -470,7 +470,7 @@ func panicSite(st string) string {
 	for _, l := range strings.Split(st, "\n") {
 		l = strings.TrimSpace(l)
 		if strings.HasPrefix(l, "github.com/tjfoc/gmsm/") && !strings.Contains(l, "panic") {
-			if i := strings.Index(l, "("); i > 0 {
+			if i := strings.LastIndex(l, "("); i > 0 {
 				l = l[:i]
 			}
 			return strings.TrimPrefix(l, "github.com/tjfoc/gmsm/")
@@ -879,6 +879,9 @@ var Prop = &harness.Prop{
 		}
 		for p := 0; p < 16; p++ {
 			u = append(u, tlsSuiteMatrixUnit(p, 16))
+		}
+		for _, sp := range supplyPaths() {
+			u = append(u, certSupplyUnit(sp))
 		}
 		nseed, step := 1536, 96
 		if full {
